@@ -2,8 +2,8 @@
 #include "xs.h"
 
 static const char *const CNT[] = { "info_zero", "pivots_replaced", "rcond_warning", "nodrop_exact_checked", "mc64_rowperm", "no_rowperm", "equed_N", "equed_R", "equed_C", "equed_B", "trans_N", "trans_T", "trans_C", "row_storage",
-    "u_repeated_rows", "multi_col_supernodes", "secondary_drop_rules", "milu_variants", "nr_conj_quirk", NULL };
-enum { K_I0, K_REPL, K_WARN, K_EXACT, K_MC64, K_NOR, K_EN, K_ER, K_EC, K_EB, K_TN, K_TT, K_TC, K_NR, K_UREP, K_MULTI, K_SEC, K_MILU, K_QUIRK };
+    "u_repeated_rows", "multi_col_supernodes", "secondary_drop_rules", "milu_variants", "nr_conj_quirk", "heap_content_differential", NULL };
+enum { K_I0, K_REPL, K_WARN, K_EXACT, K_MC64, K_NOR, K_EN, K_ER, K_EC, K_EB, K_TN, K_TT, K_TC, K_NR, K_UREP, K_MULTI, K_SEC, K_MILU, K_QUIRK, K_HEAPDIFF };
 static const char *const RAT[] = { "solve_residual_over_allowance", "nodrop_identity_over_allowance", NULL };
 
 static const int CP_I[] = { 0, 3, 2 };
@@ -13,9 +13,9 @@ static const int TUNE_I[] = { 0, 3, 9 };
 /* k encodes: drop(7) tol(3) fill(3) norm(3) milu(4) ; aux: rowperm ; aux2: struct for pattern families */
 static void set_opts_digits(vcase *c, int drop, int tol, int fill, int norm, int milu, int rowperm) { c->k = drop + 7 * (tol + 3 * (fill + 3 * (norm + 3 * milu))); c->aux = rowperm; }
 static void sI_a(const int *d, vcase *c)   /* quick: ALL(1..3) x vals2 x drop4 x tol2 x fill2 x norm2 x milu2 x rowperm2 x trans{N,T} x colperm2 x tune2 x type4 */
-{ all123(d[0], &c->n, &c->pat); c->m = c->n; c->vals = VALS_I[d[1]]; set_opts_digits(c, d[2], d[3], d[4], d[5], d[6], d[7]); c->trans = d[8]; c->colperm = CP_I[d[9]]; set_tune(c, TUNE_I[d[10]]); c->type = d[11]; c->equil = 1; c->nrhs = 1; c->rhs = 1; c->u = 0.1; c->permid = -1; c->stor = (d[0] >> 2) & 1; }
+{ all123(d[0], &c->n, &c->pat); c->m = c->n; c->vals = VALS_I[d[1]]; set_opts_digits(c, d[2], d[3], d[4], d[5], d[6], d[7]); c->trans = d[8]; c->colperm = CP_I[d[9]]; set_tune(c, TUNE_I[d[10]]); c->type = d[11]; c->equil = 1; c->nrhs = 1 + (d[0] % 3 == 0); c->ldbx = d[0] % 2; c->rhs = 1; c->u = 0.1; c->permid = -1; c->stor = (d[0] >> 2) & 1; }
 static void sI_b(const int *d, vcase *c)   /* DEV_1(BASE(6)) subset */
-{ c->n = c->m = 6; c->pat = dev1_pattern(6, base_pattern(6, d[0]), d[1]); c->vals = VALS_I[d[2]]; set_opts_digits(c, d[3], d[4], d[5], d[6], d[7], d[8]); c->trans = d[9]; c->colperm = CP_I[d[10]]; set_tune(c, TUNE_I[d[11]]); c->type = d[12]; c->equil = 1; c->nrhs = 1; c->rhs = 1; c->u = 0.1; c->permid = -1; c->stor = d[1] & 1; }
+{ c->n = c->m = 6; c->pat = dev1_pattern(6, base_pattern(6, d[0]), d[1]); c->vals = VALS_I[d[2]]; set_opts_digits(c, d[3], d[4], d[5], d[6], d[7], d[8]); c->trans = d[9]; c->colperm = CP_I[d[10]]; set_tune(c, TUNE_I[d[11]]); c->type = d[12]; c->equil = 1; c->nrhs = 1 + (d[1] % 3 == 0); c->ldbx = d[1] % 2; c->rhs = 1; c->u = 0.1; c->permid = -1; c->stor = d[1] & 1; }
 /* modified-ILU cancellation: n=4 all patterns with the diagonal kept (4096), n=5 upper triangular (1024), values 13/14, DROP_BASIC tol .5, every norm, every MILU variant */
 static void sI_m(const int *d, vcase *c)
 {
@@ -32,11 +32,11 @@ static void sI_z6(const int *d, vcase *c)
 /* SymmetricMode: the etree is heap-ordered but not postordered (ilu_heap_relax_snode); patterns whose natural order is not a postorder included */
 static void sI_s(const int *d, vcase *c)
 { static const int B[] = { 0, 1, 2, 3, 4, 5, 6, 7, 8, 11, 12 }; c->n = c->m = 6; c->pat = dev1_pattern(6, base_pattern(6, B[d[0]]), d[1]); c->vals = (int[]){ 1, 4 }[d[2]]; set_opts_digits(c, d[3], 0, 0, 0, 0, 0); c->trans = 0; c->colperm = CP_I[d[4]];
-  set_tune(c, (int[]){ 0, 10, 4, 3 }[d[5]]); c->type = d[6]; c->equil = 1; c->nrhs = 1; c->rhs = 1; c->u = 0.1; c->permid = -1; c->stor = 0; c->sym = 1; }
+  set_tune(c, (int[]){ 0, 10, 4, 3 }[d[5]]); c->type = d[6]; c->equil = 1; c->nrhs = 1; c->rhs = 1; c->u = 0.1; c->permid = -1; c->stor = 0; c->sym = 1; c->aux2 = 1; }
 #define FAM_SYM(nd) { "SymmetricMode: 11 bases of order 6 (incl. interleaved chains) x deviations x vals{V1,V4} x {NODROP,BASIC} x {NATURAL,COLAMD,MMD_AT+A} x tune{default,(2,4,4..),(2,2,3..),(2,1,2..)} x type4", 7, { 11, nd, 2, 2, 3, 4, 4 }, sI_s }
 static void sI_s16(const int *d, vcase *c)   /* orders 12 and 16, generated patterns: etrees with several branches, subtrees that are not contiguous in the original numbering */
 { c->n = c->m = d[1] ? 16 : 12; if (d[0] < 8) { c->gen = 1; c->pat = (uint64_t)(int[]){ 9, 10, 4, 7, 1, 2, 11, 12 }[d[0]]; } else { c->gen = 2; c->pat = (uint64_t)(800 + d[0]); }
-  c->vals = 1; set_opts_digits(c, d[2], 0, 0, 0, 0, 0); c->trans = 0; c->colperm = CP_I[d[3]]; set_tune(c, (int[]){ 0, 10, 14 }[d[4]]); c->type = d[5]; c->equil = 1; c->nrhs = 1; c->rhs = 1; c->u = 0.1; c->permid = -1; c->stor = 0; c->sym = d[6]; }
+  c->vals = 1; set_opts_digits(c, d[2], 0, 0, 0, 0, 0); c->trans = 0; c->colperm = CP_I[d[3]]; set_tune(c, (int[]){ 0, 10, 14 }[d[4]]); c->type = d[5]; c->equil = 1; c->nrhs = 1; c->rhs = 1; c->u = 0.1; c->permid = -1; c->stor = 0; c->sym = d[6]; c->aux2 = 1; }
 #define FAM_S16(np) { "orders 12 and 16: 8 structured + generated patterns x {NODROP,BASIC} x {NATURAL,COLAMD,MMD_AT+A} x tune{default,(2,4,4..),(3,8,2..)} x type4 x SymmetricMode2", 7, { np, 2, 2, 3, 3, 4, 2 }, sI_s16 }
 #define FAM_Z4 { "tiny entries dropped, Equil off: ALL(4) x {V4,V5,V7} x BASIC tol{1e-4,.5} x {NATURAL,COLAMD} x tune{(2,1,2..),default,1-col} x type4", 6, { N_ALL4, 3, 2, 2, 3, 4 }, sI_z4 }
 #define FAM_Z6 { "tiny entries dropped, Equil off: DEV_1(BASE(6)) x {V4,V5,V7} x BASIC tol{1e-4,.5} x {NATURAL,COLAMD} x tune3 x milu{SILU,SMILU_2} x type4", 8, { 9, 37, 3, 2, 2, 3, 2, 4 }, sI_z6 }
@@ -58,13 +58,26 @@ static long sz_I(int tier) { return tier ? fam_total(FIT, NF(FIT)) : fam_total(F
 static void dec_I(int tier, long idx, vcase *c) { if (tier) { fam_decode(FIT, NF(FIT), idx, c); if (c->fam == 1) { /* {d,z} */ c->type = (c->type == 0) ? TD : TZ; } } else fam_decode(FIQ, NF(FIQ), idx, c); }
 static void desc_I(int tier, char *b, size_t cap) { if (tier) fam_describe(FIT, NF(FIT), b, cap); else fam_describe(FIQ, NF(FIQ), b, cap); }
 
+/* everything a caller can observe of one xgsisx call, as a hash; fresh library blocks are pre-filled with `fill` */
+static uint64_t ilu_once(const vcase *c, int fill)
+{
+    int n = c->n; const vf_type *T = vf_T(c->type); int save = vf_fill_byte; vf_fill_byte = fill;
+    xs s; xs_init(&s, T, n, c->pat, c->vals, c->stor); s.ilu = 1;
+    dmat B; make_rhs(T, &s.A_orig, c->trans, c->rhs, c->nrhs > 0 ? c->nrhs : 1, &B); xs_set_rhs(&s, &B, c->ldbx, c->nrhs > 1 ? 2 : 0);
+    superlu_options_t opt; xs_ilu_options(c, c->aux, &opt); memset(&s.Glu, 0, sizeof s.Glu);
+    xs_call(&s, &opt);
+    uint64_t h = fnv(0, &s.info, sizeof s.info); h = fnv(h, s.perm_c, sizeof(int) * n); h = fnv(h, s.perm_r, sizeof(int) * n); h = fnv(h, s.equed, 1);
+    if (s.have_LU) { uint64_t l = hash_LU(T, &s.L, &s.U); h = fnv(h, &l, sizeof l); }
+    for (int j = 0; j < s.nrhs; j++) h = fnv(h, (char *)s.X.val + T->esz * (size_t)j * s.X.ld, T->esz * n);
+    xs_destroy(&s); vf_fill_byte = save; return h;
+}
 static void run_C15(const vcase *c, vres *r)
 {
     int n = c->n; const vf_type *T = vf_T(c->type);
     if (pat_struct_rank(n, n, c->pat) < n) { r->status = 2; return; }
     (void)sI_bt;
     xs s; xs_init(&s, T, n, c->pat, c->vals, c->stor); s.ilu = 1;
-    dmat A_in = s.A_orig, B, B_in, B_after; make_rhs(T, &A_in, c->trans, c->rhs, 1, &B); xs_set_rhs(&s, &B, 0, 0); dn_to_dense(&s.B, &B_in);
+    dmat A_in = s.A_orig, B, B_in, B_after; make_rhs(T, &A_in, c->trans, c->rhs, c->nrhs > 0 ? c->nrhs : 1, &B); xs_set_rhs(&s, &B, c->ldbx, c->nrhs > 1 ? 2 : 0); dn_to_dense(&s.B, &B_in);    /* several right-hand sides with ldb != ldx */
     superlu_options_t opt; xs_ilu_options(c, c->aux, &opt);
     int kk = c->k, drop = kk % 7, milu = (kk / 189) % 4;
     int_t *ind0 = intMalloc(s.S.nnz ? s.S.nnz : 1), *ptr0 = intMalloc(n + 1); memcpy(ind0, s.S.ind, sizeof(int_t) * s.S.nnz); memcpy(ptr0, s.S.ptr, sizeof(int_t) * (n + 1));
@@ -84,6 +97,11 @@ static void run_C15(const vcase *c, vres *r)
         if (bad) goto done;
         WK_COUNT(e == 'N' ? K_EN : e == 'R' ? K_ER : e == 'C' ? K_EC : K_EB);
         WK_RATIO(0, st.ratio_solve); if (st.exact) { WK_RATIO(1, st.ratio_id); WK_COUNT(K_EXACT); }
+    }
+    if (c->aux2 == 1 && !r->status) {
+        /* the result does not depend on what fresh library blocks happened to contain: same call on heaps pre-filled with three other byte patterns */
+        uint64_t h0 = ilu_once(c, 0xA5), h1 = ilu_once(c, 0x11), h2 = ilu_once(c, 0x00), h3 = ilu_once(c, 0x7F); WK_COUNT(K_HEAPDIFF);
+        if (h0 != h1 || h0 != h2 || h0 != h3) { wk_fail(r, "depends-on-heap-contents", "the same xgsisx call gives different info / permutations / factors / X when fresh blocks are pre-filled with 0xA5, 0x11, 0x00, 0x7F (hashes %016llx %016llx %016llx %016llx)", (unsigned long long)h0, (unsigned long long)h1, (unsigned long long)h2, (unsigned long long)h3); goto done; }
     }
 done:
     SUPERLU_FREE(ind0); SUPERLU_FREE(ptr0);
